@@ -338,6 +338,15 @@ func c05IndentGen(r *Rng, tier string, emit func(Case)) {
 		}
 		mk(3, 2, append([]int64{3}, bytesToArgs(b)...), fmt.Sprintf("Indenter(2+3).Write(%q)", b))
 	})
+	// wide and nested indenters (widths around 64, where an implementation might switch representation)
+	for _, w1 := range []int{0, 1, 31, 60, 63, 64, 65, 100} {
+		for _, w2 := range []int{0, 1, 4, 5, 64} {
+			for _, b := range [][]byte{[]byte("a\nb"), []byte("\n\na"), []byte("a\n")} {
+				mk(3, w1, append([]int64{int64(w2)}, bytesToArgs(b)...), fmt.Sprintf("Indenter(%d+%d).Write(%q)", w1, w2, b))
+			}
+		}
+		mk(2, w1, bytesToArgs([]byte("a\nb\n")), fmt.Sprintf("Indenter(%d).Write", w1))
+	}
 	n := 6000
 	if tier == "thorough" {
 		n = 200000
